@@ -16,9 +16,12 @@ pub mod utc;
 pub use utc::*;
 
 pub(super) fn fixed_timezone(offset: &str) -> String {
-    let gmt_offset = offset[2..offset.find(':').unwrap_or(3)].to_string();
+    // `offset` is the display text of a fixed offset: sign, hours, ':', minutes (e.g. "+10:00", "-03:30").
+    let colon = offset.find(':').unwrap_or(3);
+    let gmt_offset = offset[1..colon].trim_start_matches('0').to_string();
 
-    if gmt_offset == "0" {
+    // Only whole-hour offsets have a fixed `Etc/GMT` zone.
+    if gmt_offset.is_empty() || offset[colon..].chars().any(|c| c != ':' && c != '0') {
         return "UTC".into();
     }
     let gmt_sign = offset[0..1].to_string();
